@@ -447,9 +447,9 @@ def run_parallelize(case, rng, counters, cov, viol, add):
     cov['class_x_phase']['ValueError/parallelize:' + kind] = 1
     where = 'parallelize(num_processors=%d) fault %s' % (workers, kind)
     if res is None:
-        counters['faults_fired'] += 1
-        add('no_outcome', '%s: the run neither returned nor raised within 60 s (hang or interpreter stuck at exit)' % where
-            if timed_out else '%s: child died without reporting' % where, 'parallelize/%s/no_outcome' % kind)
+        # neither returned nor raised within the wall-clock watchdog: undecided (never a verdict from a timer)
+        return dict(nontrivial=False, violations=viol, cov=cov, counters=counters,
+                    inconclusive='%s: no outcome within 60 s (%s)' % (where, 'watchdog' if timed_out else 'child died'))
     else:
         counters['faults_fired'] += 1
         v = res['verdict']
